@@ -301,7 +301,8 @@ func (m *Mint) RequestMintQuote(mintQuoteRequest nut04.PostMintQuoteBolt11Reques
 			errmsg := fmt.Sprintf("could not get mint balance from db: %v", err)
 			return storage.MintQuote{}, cashu.BuildCashuError(errmsg, cashu.DBErrCode)
 		}
-		if balance+requestAmount > m.limits.MaxBalance {
+		// note: not adding balance and requestAmount because that can overflow
+		if requestAmount > m.limits.MaxBalance || balance > m.limits.MaxBalance-requestAmount {
 			return storage.MintQuote{}, cashu.MintingDisabled
 		}
 	}
